@@ -1,5 +1,5 @@
 #!/bin/bash
-# tools/seed7_eval.sh <Cxx> ...: evaluates the round-7 seeds of the given properties (agent worktrees /tmp/r7_<Cxx>/OUT/{1,2}) from a snapshot
+# tools/seed7_eval.sh <Cxx> ...: evaluates the round-7 seeds of the given properties (agent worktrees /tmp/r8_<Cxx>/OUT/{1,2}) from a snapshot
 # of /verif (so that edits to /verif made meanwhile do not disturb the runs); results are copied to /verif/seeded/<id>/
 SNAP=${SNAP:-/tmp/verif_snap}
 mkdir -p $SNAP
@@ -7,10 +7,10 @@ rsync -a --delete --exclude .git --exclude build /verif/ $SNAP/
 for p in "$@"; do
   last=$(ls -d /verif/seeded/$p-* 2>/dev/null | sed 's/.*-//' | sort -n | tail -1); last=${last:-0}
   for n in 1 2; do
-    [ -f /tmp/r7_$p/OUT/$n/patch.diff ] || continue
+    [ -f /tmp/${ROUND:-r8}_$p/OUT/$n/patch.diff ] || continue
     id=$p-$((last+n))
-    echo "=== $id (/tmp/r7_$p OUT/$n)"
-    (cd $SNAP && python3 tools/seed_eval.py /tmp/r7_$p $n $id 2>&1 | grep -E "CONFIRM|CAUGHT|Error|error:|assert" | head -5)
+    echo "=== $id (/tmp/${ROUND:-r8}_$p OUT/$n)"
+    (cd $SNAP && python3 tools/seed_eval.py /tmp/${ROUND:-r8}_$p $n $id 2>&1 | grep -E "CONFIRM|CAUGHT|Error|error:|assert" | head -5)
     mkdir -p /verif/seeded/$id && cp $SNAP/seeded/$id/* /verif/seeded/$id/
   done
 done
